@@ -133,8 +133,18 @@ impl Prop for C17 {
 				} else {
 					"reached_on_other_account_only"
 				};
+				let n_pending = pre.txs.iter().filter(|t| crate::world::is_live(t)).count();
+				let st = crate::ops::state_name(&run.ex.msgs[*m].slate.state);
 				run.cov.case(
-					&format!("{}|{}|{}", step.kind(), rel, out.ok),
+					&format!(
+						"{}|{}|{}|{}|{}|{}",
+						step.kind(),
+						st,
+						rel,
+						out.ok,
+						std::cmp::min(n_pending, 3),
+						if c == 0 { 0 } else if c < h_active { 1 } else if c == h_active { 2 } else if c == h_active + 1 { 3 } else { 4 }
+					),
 					c != 0,
 				);
 				let expired_err = out
